@@ -424,6 +424,10 @@ func runCheck(o *CheckOpts) int {
 				fmt.Printf("slow: %.1fs %s %s [%s]\n", sorted[i].R.Seconds, sorted[i].R.Status, sorted[i].O.Name, strings.Join(sorted[i].R.Tried, " "))
 			}
 		}
+		slowestForEvidence = nil
+		for i := 0; i < len(sorted) && i < 5; i++ {
+			slowestForEvidence = append(slowestForEvidence, map[string]interface{}{"obligation": sorted[i].O.Name, "seconds": round3(sorted[i].R.Seconds), "status": sorted[i].R.Status, "attempts": sorted[i].R.Tried})
+		}
 	}
 	wall := time.Since(start).Seconds()
 	fmt.Printf("property %s tier %s: %d functions, %d obligations, %d discharged, %d known findings, %d violations, %d covers, %.1fs wall, %.1fs solver\n",
@@ -496,6 +500,9 @@ func truncate(s string, n int) string {
 	return s
 }
 
+// the five slowest obligations of the run (stability watch), for the evidence file
+var slowestForEvidence []map[string]interface{}
+
 func writeEvidence(o *CheckOpts, pc *PropConfig, funcs []string, total, discharged, knownCount, violations, covers int, coverFail []string,
 	perSolver map[string]int, solverSeconds float64, samples []map[string]interface{}, assumptions map[string]bool, notes, outside []string, wall float64, extra []ExtraResult) {
 	level := pc.Level
@@ -528,6 +535,7 @@ func writeEvidence(o *CheckOpts, pc *PropConfig, funcs []string, total, discharg
 		"per_backend":              perSolver,
 		"solver_seconds":           round3(solverSeconds),
 		"samples":                  samples,
+		"slowest_obligations":      slowestForEvidence,
 		"vacuity_covers":           covers,
 		"vacuity_cover_failures":   coverFail,
 		"outside_subset":           outside,
